@@ -197,6 +197,7 @@ def grow_valid(mod, known, limit):
             continue
         cands = [b[:i] + ch + b[i + 1:] for i in range(len(b)) for ch in alpha if ch != b[i]]
         cands += [b[:i] + ch + b[i + 1:] for i in range(min(4, len(b) - 1)) for ch in '09' if ch != b[i]]
+        cands += ['0' * k + b[k:] for k in (2, 3) if len(b) > k + 1 and b[:k].isdigit() and b[:k] != '0' * k]      # several leading zeros
         for t in cands:
             for u in [t] + [t[:-1] + d for d in '0123456789X' if d != t[-1]]:
                 if u in seen:
@@ -242,7 +243,7 @@ def pick_bases(name, mod, items, n, rnd, cap=8, corpus_items=None):
         # the presentation as written, separators dropped (compact() would merge e.g. decimal and hexadecimal MEIDs)
         c = ''.join(ch for ch in x if ch.isalnum())
         if isinstance(v, str) and v and c:
-            head = c[:2].upper() if c[:2].isalpha() and c[:2].isascii() else ''.join(cls(ch) for ch in c[:2])    # type / country letters literally
+            head = c[:2].upper() if c[:2].isalpha() and c[:2].isascii() else ''.join('z' if ch == '0' else cls(ch) for ch in c[:2])    # type / country letters literally; leading zeros are a layout of their own
             groups.setdefault((len(c), head + ''.join(cls(ch) for ch in c[2:3]), cls(c[-1])), x)
     keys = sorted(groups)
     first = []                       # one group per distinct length first, then the other groups
